@@ -758,7 +758,10 @@ class CodeGenerator:
         """Generate code for when an identifier was referenced"""
         # Generate code for this identifier.
         target = self.context.resolve_symbol(expr)
+        return self.gen_symbol_ref(expr, target)
 
+    def gen_symbol_ref(self, expr, target):
+        """Generate code for the use of a variable or a constant"""
         # This returns the dereferenced variable.
         if isinstance(target, ast.Variable):
             expr.lvalue = True
@@ -793,12 +796,7 @@ class CodeGenerator:
             # Damn, we are referring something inside another module!
             # Invoke scope machinery!
             target = self.context.resolve_symbol(expr)
-            if isinstance(target, ast.Variable):
-                expr.lvalue = True
-                value = self.context.var_map[target]
-            else:  # pragma: no cover
-                raise NotImplementedError(str(target))
-            return value
+            return self.gen_symbol_ref(expr, target)
 
         base = self.gen_expr_code(expr.base)
 
